@@ -10,9 +10,13 @@ variable {κ : Type}
 
 /-- when the signal is a directive change, the machines (which `Parser.parse` stores) and the sinks are
 still related, with whatever flags -/
+def ScanIdle : Regs → Prop
+  | .scanner s => s.tagStart = none
+  | .lexer _ => True
+
 def DirOk (δ : Nat) (K : Nat → κ → κ → Prop) (rs rw : M κ × Option Signal) : Prop :=
   ∀ dr bm, rs.2 = some (.directive dr bm) →
-    ∃ ab'', MRel δ 0 0 ab'' .none rs.1 rw.1 ∧ K 0 rs.1.x.sink rw.1.x.sink
+    ∃ ab'', MRel δ 0 0 ab'' .none rs.1 rw.1 ∧ K 0 rs.1.x.sink rw.1.x.sink ∧ ScanIdle rs.1.r
 
 /-- outcome of running the same action / action list / arm body in both runs. `must`: the signal stops
 the caller (written with `?`), so nothing is needed about the machines when there is one. -/
@@ -44,13 +48,20 @@ theorem sigOf_ne_dir (r : Except Err Unit) (dr : Directive) (bm : Bookmark) : si
   | ok u => intro h; cases h
   | error e => intro h; cases h
 
+theorem sigOf_ok {r : Except Err Unit} (h : sigOf r = none ∨ true = false) : ∃ a, r = .ok a := by
+  rcases h with h | h
+  · cases r with
+    | ok u => exact ⟨u, rfl⟩
+    | error e => cases h
+  · cases h
+
 theorem sigRel_of_res (δ : Nat) (r : Except Err Unit) : SigRel δ 0 (sigOf r) (sigOf r) := by
   match r with
   | .ok () => exact trivial
   | .error e => exact rfl
 
 section
-variable {env : Env κ} {inpS inpW : Bytes} {δ : Nat} {K : Nat → κ → κ → Prop}
+variable {env : Env κ} {inpS inpW : Bytes} {δ : Nat} {K : Nat → κ → κ → Prop} {Loc : κ → Nat → Nat → TextType → Prop}
 
 /-- all lexer validity flags off -/
 def Ab.noLex (ab : Ab) : Prop :=
@@ -67,7 +78,8 @@ theorem LexRel.emitted {d np : Nat} {ab ab' : Ab} {ls lw ls' lw' : LexRegs} (h :
     (hnt : (ls'.curNonTag = ls.curNonTag ∧ lw'.curNonTag = lw.curNonTag) ∨ (ls'.curNonTag = none ∧ lw'.curNonTag = none)) :
     LexRel δ 0 ab' np ls' lw' := by
   obtain ⟨n1, n2, n3, n4, n5, n6⟩ := hn
-  refine ⟨by omega, by omega, by intro g; rw [h1]; exact hp g, hfd, by intro g; simp [n1] at g, ?_, ?_, ?_, by intro g; simp [n6] at g⟩
+  refine ⟨by omega, by omega, by intro g; rw [h1]; exact hp g, hfd, by intro g; simp [n1] at g, ?_, ?_, ?_, by intro g; simp [n6] at g,
+    by intro g; simp [n5] at g, by intro g; simp [n5] at g⟩
   · rw [n2, n3]
     rcases htag with ⟨a, b⟩ | ⟨a, b⟩
     · rw [a, b]; exact OptRel.mono (fun _ _ hr => hr.stale) h.tag
@@ -83,7 +95,7 @@ theorem CRel.pos {cs cw : Common} (hc : CRel δ 0 cs cw) (h1 : 1 ≤ cs.nextPos)
   unfold Common.pos; omega
 
 /-- `emit_lexeme` for non-tag lexemes, no text debt -/
-theorem lexEmitNonTag_sim (hops : OpsSim env.ops inpS inpW δ K) {ab ab' : Ab} {cs cw : Common}
+theorem lexEmitNonTag_sim (hops : OpsSim env.ops inpS inpW δ K Loc) {ab ab' : Ab} {cs cw : Common}
     {ls lw ls0 lw0 : LexRegs} {xs xw : Ctx κ} (o : Option NonTagOutline) (es : Nat)
     (hc : CRel δ 0 cs cw) (hl : LexRel δ 0 ab cs.nextPos ls0 lw0)
     (hsim : xw.sim = xs.sim) (hpc : xs.prevConsumed = xw.prevConsumed + δ) (hK : K 0 xs.sink xw.sink)
@@ -92,7 +104,7 @@ theorem lexEmitNonTag_sim (hops : OpsSim env.ops inpS inpW δ K) {ab ab' : Ab} {
     (htag : (ls.curTag = ls0.curTag ∧ lw.curTag = lw0.curTag) ∨ (ls.curTag = none ∧ lw.curTag = none))
     (hattr : ls.curAttr = ls0.curAttr ∧ lw.curAttr = lw0.curAttr)
     (hnt : (ls.curNonTag = ls0.curNonTag ∧ lw.curNonTag = lw0.curNonTag) ∨ (ls.curNonTag = none ∧ lw.curNonTag = none))
-    :
+    (hdt : DtIn inpS inpW δ o) :
     ActSim δ K ab' true (lexEmitNonTag env inpS cs ls xs o es)
       (lexEmitNonTag env inpW cw lw xw (o.map (shNonTag δ)) (es + δ)) := by
   rw [lexEmitNonTag_eq, lexEmitNonTag_eq]
@@ -100,14 +112,14 @@ theorem lexEmitNonTag_sim (hops : OpsSim env.ops inpS inpW δ K) {ab ab' : Ab} {
     have := hl.ls_eq
     simp only [shR, hls, hlw, Range.mk.injEq]; exact ⟨by omega, trivial⟩
   rw [hraw]
-  have hop := hops.nonTag xw.prevConsumed ⟨ls.lexemeStart, es⟩ o xs.sink xw.sink hK
+  have hop := hops.nonTag xw.prevConsumed ⟨ls.lexemeStart, es⟩ o xs.sink xw.sink hK hdt
   rw [← hpc] at hop
   rcases hop with hpan | ⟨hres, hK'⟩
   · left
     exact ⟨rfl, spanic_of_epanic hpan⟩
   · right
     rw [hres]
-    refine ⟨sigRel_of_res δ _, fun _ => ⟨⟨hc, ?_, hsim, hpc⟩, hK'⟩, fun dr bm hh => absurd hh (sigOf_ne_dir _ dr bm)⟩
+    refine ⟨sigRel_of_res δ _, fun hh => ⟨⟨hc, ?_, hsim, hpc⟩, hK' (sigOf_ok hh)⟩, fun dr bm hh => absurd hh (sigOf_ne_dir _ dr bm)⟩
     exact hl.emitted hn es hle hp rfl rfl hfd htag hattr hnt
 
 /-- both runs leave the machine alone -/
@@ -116,10 +128,11 @@ theorem ActSim.ret {ab' : Ab} {must : Bool} {ms mw : M κ} (h : MRel δ 0 0 ab' 
   Or.inr ⟨trivial, fun _ => ⟨h, hK⟩, fun _ _ hh => by cases hh⟩
 
 /-- `emit_text`, possibly repaying a text debt -/
-theorem lexEmitText_sim (hops : OpsSim env.ops inpS inpW δ K) {d : Nat} {ab ab' : Ab} {cs cw : Common}
+theorem lexEmitText_sim (hops : OpsSim env.ops inpS inpW δ K Loc) {d : Nat} {ab ab' : Ab} {cs cw : Common}
     {ls lw : LexRegs} {xs xw : Ctx κ}
     (hc : CRel δ 0 cs cw) (hl : LexRel δ d ab cs.nextPos ls lw) (hP : ab.P = true)
     (hsim : xw.sim = xs.sim) (hpc : xs.prevConsumed = xw.prevConsumed + δ) (hK : K d xs.sink xw.sink)
+    (hloc : 0 < d → Loc xs.sink xs.prevConsumed ls.lexemeStart cs.lastTextType)
     (hn : ab'.noLex) :
     ActSim δ K ab' true (lexEmitText env inpS cs ls xs) (lexEmitText env inpW cw lw xw) := by
   have hp := hl.p hP
@@ -133,16 +146,16 @@ theorem lexEmitText_sim (hops : OpsSim env.ops inpS inpW δ K) {d : Nat} {ab ab'
     by_cases hgt : cs.pos > ls.lexemeStart
     · rw [if_pos hgt, if_pos (by omega), hpos, hc.lastTextType]
       exact lexEmitNonTag_sim hops (some (.text cs.lastTextType)) cs.pos hc hl hsim hpc hK hn (by omega)
-        (fun _ => by omega) rfl rfl hl.fd (Or.inl ⟨rfl, rfl⟩) ⟨rfl, rfl⟩ (Or.inl ⟨rfl, rfl⟩)
+        (fun _ => by omega) rfl rfl hl.fd (Or.inl ⟨rfl, rfl⟩) ⟨rfl, rfl⟩ (Or.inl ⟨rfl, rfl⟩) trivial
     · rw [if_neg hgt, if_neg (by omega)]
       refine ActSim.ret ⟨hc, ?_, hsim, hpc⟩ hK
       exact hl.emitted hn ls.lexemeStart (by omega) (fun _ => by omega) rfl (by omega) hl.fd
         (Or.inl ⟨rfl, rfl⟩) ⟨rfl, rfl⟩ (Or.inl ⟨rfl, rfl⟩)
   · have hd0 : 0 < d := Nat.pos_of_ne_zero hd
     rw [if_pos (show cw.pos > lw.lexemeStart by omega)]
-    have hop := hops.text xw.prevConsumed lw.lexemeStart cw.pos d cw.lastTextType xs.sink xw.sink hK hd0
-      (by omega) (by omega)
     have e1 : lw.lexemeStart + d - δ = ls.lexemeStart := by omega
+    have hop := hops.text xw.prevConsumed lw.lexemeStart cw.pos d cw.lastTextType xs.sink xw.sink hK
+      (by rw [e1, ← hpc, hc.lastTextType]; exact hloc hd0) hd0 (by omega) (by omega)
     have e2 : cw.pos - δ = cs.pos := by omega
     rw [e1, e2, ← hpc, hc.lastTextType] at hop
     rw [lexEmitNonTag_eq env inpW, hc.lastTextType]
@@ -153,7 +166,7 @@ theorem lexEmitText_sim (hops : OpsSim env.ops inpS inpW δ K) {d : Nat} {ab ab'
       · exact Or.inl ⟨rfl, spanic_of_epanic hpan⟩
       · right
         rw [hres]
-        refine ⟨sigRel_of_res δ _, fun _ => ⟨⟨hc, ?_, hsim, hpc⟩, hK'⟩, fun dr bm hh => absurd hh (sigOf_ne_dir _ dr bm)⟩
+        refine ⟨sigRel_of_res δ _, fun hh => ⟨⟨hc, ?_, hsim, hpc⟩, hK' (sigOf_ok hh)⟩, fun dr bm hh => absurd hh (sigOf_ne_dir _ dr bm)⟩
         exact hl.emitted hn cs.pos (by omega) (fun _ => by omega) rfl (by simp only; omega) hl.fd
           (Or.inl ⟨rfl, rfl⟩) ⟨rfl, rfl⟩ (Or.inl ⟨rfl, rfl⟩)
     · rw [if_neg hgt]
@@ -162,7 +175,7 @@ theorem lexEmitText_sim (hops : OpsSim env.ops inpS inpW δ K) {d : Nat} {ab ab'
       · exact hpan.elim
       · right
         rw [hres]
-        refine ⟨trivial, fun _ => ⟨⟨hc, ?_, hsim, hpc⟩, hK'⟩, fun _ _ hh => by cases hh⟩
+        refine ⟨trivial, fun _ => ⟨⟨hc, ?_, hsim, hpc⟩, hK' ⟨(), rfl⟩⟩, fun _ _ hh => by cases hh⟩
         exact hl.emitted hn ls.lexemeStart (by omega) (fun _ => by omega) rfl (by simp only; omega) hl.fd
           (Or.inl ⟨rfl, rfl⟩) ⟨rfl, rfl⟩ (Or.inl ⟨rfl, rfl⟩)
 
@@ -209,7 +222,7 @@ theorem andThen_sim {ab1 ab2 : Ab} {rs rw : M κ × Option Signal} {gs gw : M κ
           exact hdir dr bm (by rw [hrs]; exact hh)
 
 /-- `emit_eof` -/
-theorem lexEmitEof_sim (hops : OpsSim env.ops inpS inpW δ K) {ab : Ab} {ms mw : M κ}
+theorem lexEmitEof_sim (hops : OpsSim env.ops inpS inpW δ K Loc) {ab : Ab} {ms mw : M κ}
     (h : MRel δ 0 0 ab .none ms mw) (hK : K 0 ms.x.sink mw.x.sink) (hP : ab.P = true) (hn : ab.noLex) :
     ActSim δ K ab true (lexEmitEof env inpS ms) (lexEmitEof env inpW mw) := by
   obtain ⟨hc, hr, hsim, hpc⟩ := h
@@ -226,7 +239,7 @@ theorem lexEmitEof_sim (hops : OpsSim env.ops inpS inpW δ K) {ab : Ab} {ms mw :
       simp only
       rw [hpos]
       exact lexEmitNonTag_sim hops (some .eof) ms.c.pos hc hl hsim hpc hK hn (by omega)
-        (fun _ => by omega) rfl rfl hl.fd (Or.inl ⟨rfl, rfl⟩) ⟨rfl, rfl⟩ (Or.inl ⟨rfl, rfl⟩)
+        (fun _ => by omega) rfl rfl hl.fd (Or.inl ⟨rfl, rfl⟩) ⟨rfl, rfl⟩ (Or.inl ⟨rfl, rfl⟩) trivial
     | scanner sw => rw [hrs, hrw] at hr; exact hr.elim
   | scanner ss =>
     cases hrw : mw.r with
@@ -363,7 +376,7 @@ theorem lexStampTag_sh {cs cw : Common} (hc : CRel δ 0 cs cw) (sim : Sim) (t : 
   | endTag n h => exact ⟨hc, rfl, rfl⟩
 
 /-- `emit_tag_lexeme` and the directive the sink returns -/
-theorem lexEmitTagLexeme_sim (hops : OpsSim env.ops inpS inpW δ K) {ab ab' : Ab} {cs cw : Common}
+theorem lexEmitTagLexeme_sim (hops : OpsSim env.ops inpS inpW δ K Loc) {ab ab' : Ab} {cs cw : Common}
     {ls lw ls0 lw0 : LexRegs} {xs xw : Ctx κ} (sim : Sim) (t : TagOutline) (es : Nat)
     (hc : CRel δ 0 cs cw) (hl : LexRel δ 0 ab cs.nextPos ls0 lw0)
     (hpc : xs.prevConsumed = xw.prevConsumed + δ) (hK : K 0 xs.sink xw.sink)
@@ -393,16 +406,16 @@ theorem lexEmitTagLexeme_sim (hops : OpsSim env.ops inpS inpW δ K) {ab ab' : Ab
     | .error (.panic _), _ => exact ⟨rfl, trivial⟩
   · right
     rw [hres]
-    generalize (env.ops.handleTag inpS ⟨xs.prevConsumed, ⟨ls.lexemeStart, es⟩, t⟩ xs.sink).2 = r
-    match r with
-    | .error e => exact ⟨rfl, (fun hh => by rcases hh with hh | hh <;> cases hh), fun _ _ hh => by cases hh⟩
-    | .ok .lex => exact ⟨trivial, fun _ => ⟨⟨hc, hl', rfl, hpc⟩, hK'⟩, fun _ _ hh => by cases hh⟩
-    | .ok .scan =>
-      refine ⟨⟨rfl, ?_⟩, (fun hh => by rcases hh with hh | hh <;> cases hh), fun _ _ _ => ⟨ab', ⟨hc, hl', rfl, hpc⟩, hK'⟩⟩
+    generalize (env.ops.handleTag inpS ⟨xs.prevConsumed, ⟨ls.lexemeStart, es⟩, t⟩ xs.sink).2 = r at hK' ⊢
+    match r, hK' with
+    | .error e, _ => exact ⟨rfl, (fun hh => by rcases hh with hh | hh <;> cases hh), fun _ _ hh => by cases hh⟩
+    | .ok .lex, hK' => exact ⟨trivial, fun _ => ⟨⟨hc, hl', rfl, hpc⟩, hK' ⟨_, rfl⟩⟩, fun _ _ hh => by cases hh⟩
+    | .ok .scan, hK' =>
+      refine ⟨⟨rfl, ?_⟩, (fun hh => by rcases hh with hh | hh <;> cases hh), fun _ _ _ => ⟨ab', ⟨hc, hl', rfl, hpc⟩, hK' ⟨_, rfl⟩, trivial⟩⟩
       exact ⟨hc.cdataAllowed, hc.lastTextType, hc.lastStartTagNameHash, rfl, rfl⟩
 
 /-- `emit_tag` -/
-theorem lexEmitTag_sim (F : Frame inpS inpW δ) (hops : OpsSim env.ops inpS inpW δ K) {ab ab' : Ab} {cs cw : Common}
+theorem lexEmitTag_sim (F : Frame inpS inpW δ) (hops : OpsSim env.ops inpS inpW δ K Loc) {ab ab' : Ab} {cs cw : Common}
     {ls lw : LexRegs} {xs xw : Ctx κ}
     (hc : CRel δ 0 cs cw) (hl : LexRel δ 0 ab cs.nextPos ls lw) (hP : ab.P = true) (hGn : ab.Gn = true)
     (hGa : ab.Ga = true)
